@@ -241,7 +241,10 @@ def _subtree(modname, params, prefixes, opts, max_paths, slice_s):
     results = []
     t0 = time.time()
     n = 0
+    hard = opts.get('hard_deadline')
     while stack and n < max_paths and time.time() - t0 < slice_s:
+        if hard and time.time() > hard:
+            break          # the configuration's budget is used up: the remaining prefixes go back (reported as not explored)
         p = stack.pop()
         o = dict(opts)
         o['want_sample'] = bool(opts.get('sample_every', 0)) and (zlib.crc32(repr(p).encode()) % opts['sample_every'] == 0)
@@ -414,7 +417,7 @@ def run_check(prop, tier, seed=0, only=None, nproc=None, serial=False, verbose=T
     per_cfg = max(20.0, total_budget / max(1, len(configs)))
     opts_base = {'timeout_ms': 5000 if tier == 'quick' else 30000,
                  'sample_every': 7 if tier == 'quick' else 3, 'concolic': True,
-                 'path_wall_s': 25 if tier == 'quick' else 300,
+                 'path_wall_s': 25 if tier == 'quick' else 120,
                  'second_solver_every': 0 if tier == 'quick' else 40}
     opts_base.update(getattr(mod, 'OPTS', {}).get(tier, {}))
     per_config = []
